@@ -26,6 +26,8 @@ type World struct {
 	SSAPkgs map[string]*ssa.Package // by import path
 	Funcs   []*ssa.Function         // every source function of the repo packages, anonymous ones included
 	byName  map[string]*ssa.Function
+	Renamed []string // functions recognised under a new name (normalize.go)
+	acqMemo map[*ssa.Function]map[*types.Var]string
 	cg      *CallGraph
 	modsets map[*ssa.Function]*modSet
 	locks   *lockAnalysis
@@ -77,13 +79,40 @@ func loadWorld(repo string, prop string) *World {
 	if len(pkgs) == 0 {
 		brokenf(prop, "load", "zero packages loaded from %s", abs)
 	}
-	sort.Slice(pkgs, func(i, j int) bool { return pkgs[i].PkgPath < pkgs[j].PkgPath })
-	for _, p := range pkgs {
-		for _, e := range p.Errors {
-			brokenf(prop, "load", "package %s does not type-check: %v", p.PkgPath, e)
+	check := func(pkgs []*packages.Package, fatal bool) bool {
+		sort.Slice(pkgs, func(i, j int) bool { return pkgs[i].PkgPath < pkgs[j].PkgPath })
+		for _, p := range pkgs {
+			for _, e := range p.Errors {
+				if !fatal {
+					return false
+				}
+				brokenf(prop, "load", "package %s does not type-check: %v", p.PkgPath, e)
+			}
+			if p.Types == nil || p.TypesInfo == nil {
+				if !fatal {
+					return false
+				}
+				brokenf(prop, "load", "package %s has no type information", p.PkgPath)
+			}
 		}
-		if p.Types == nil || p.TypesInfo == nil {
-			brokenf(prop, "load", "package %s has no type information", p.PkgPath)
+		return true
+	}
+	check(pkgs, true)
+	if dumpSyms {
+		dumpSymbols(pkgs)
+		os.Exit(0)
+	}
+	// renamed declarations get their frozen names back (alpha.go): second load through an overlay
+	var renamed []string
+	if !noNormalize {
+		if ren, notes := detectRenames(pkgs); len(ren) > 0 {
+			if overlay, err := renameOverlay(pkgs, fset, ren); err == nil {
+				fset2 := token.NewFileSet()
+				cfg2 := &packages.Config{Mode: cfg.Mode, Dir: abs, Fset: fset2, Env: cleanEnv(), Overlay: overlay}
+				if pkgs2, err := packages.Load(cfg2, "./..."); err == nil && len(pkgs2) == len(pkgs) && check(pkgs2, false) {
+					pkgs, fset, renamed = pkgs2, fset2, notes
+				}
+			}
 		}
 	}
 	prog, spkgs := ssautil.Packages(pkgs, ssa.InstantiateGenerics)
@@ -133,6 +162,7 @@ func loadWorld(repo string, prop string) *World {
 	for _, f := range w.Funcs {
 		w.byName[w.FuncName(f)] = f
 	}
+	w.Renamed = renamed
 	if !noNormalize {
 		w.normalize(prop)
 	}
@@ -141,6 +171,9 @@ func loadWorld(repo string, prop string) *World {
 
 // noNormalize: set by -dump-funcs (the frozen list is made from the tree as it is).
 var noNormalize bool
+
+// dumpSyms: set by -dump-symbols.
+var dumpSyms bool
 
 // FuncName gives a stable, line-free name: "pfcpiface.(*PFCPConn).Serve", "pfcpiface.(*PFCPConn).Serve$1".
 func (w *World) FuncName(f *ssa.Function) string {
